@@ -198,6 +198,11 @@ func (w *iWriter) GetLatest() ([]byte, error) {
 	if err := w.p.at(PWriteGet, w.id); err != nil {
 		return nil, err
 	}
+	// tell the driver wrapper that whatever it is asked to do now serves the read of the
+	// previous checkpoint (so that a driver fault here is known to be a read fault
+	// whatever statements the store uses)
+	Drv.SetContext(PWriteGet)
+	defer Drv.SetContext("")
 	return w.inner.GetLatest()
 }
 
